@@ -214,6 +214,12 @@ func genEvent(r *vh.Rng, st int, started bool, storedID string, payCounter *int,
 	}
 	if p >= 93 && p < 97 && *slowLeft < 1 {
 		p = 0
+		if wclosed {
+			p = 70 + r.Intn(19)
+			if !readerSet && p >= 89 {
+				p = 70
+			}
+		}
 	}
 	switch {
 	case p < 52:
